@@ -549,6 +549,8 @@ impl QueryRouter {
                     let has_mutation = Self::is_mutation_query(query);
 
                     if has_locks || has_mutation {
+                        // A later plain read in the same message must not undo this.
+                        visited_write_statement = true;
                         self.active_role = Some(Role::Primary);
                     } else if !visited_write_statement {
                         // If we already visited a write statement, we should be going to the primary.
